@@ -53,6 +53,12 @@ def lookahead (window : Int) (d0 : Date) (s : Trade) :
           let r := lookahead window d0 s (rem - ms) (k * e.r) rest cl.tail
           ((c + mb) :: r.1, leg :: r.2.1, r.2.2)
 
+/-- claims on the days `fs` (aligned list `cl`), converted into the units in which `k` is 1:
+    day j's claim is divided by `k · Π r` over the days before it (`outstanding_bnb_claims`) -/
+def outK : Rat → List Day → List Rat → Rat
+  | _, [], _ => 0
+  | k, e :: rest, cl => cl.headD 0 / k + outK (k * e.r) rest cl.tail
+
 structure MState where
   pool : Option Pool := none
   avail : Rat := 0          -- today's BUY not yet matched/claimed/pooled
@@ -88,7 +94,8 @@ def poolPart (d : Day) (pool : Option Pool) (rem : Rat) (s : Trade) : Option Poo
 /-- `process_sell` -/
 def sellStep (t : String) (window : Int) (d : Day) (st : MState) (s : Trade) (future : List Day)
     (cl : List Rat) : Except MErr (MState × List Rat × List Leg) :=
-  if s.q > st.avail + st.poolQ then .error ⟨.exceedsHolding, t, d.ord, 1, 1, s.idx⟩
+  -- shares already sold against purchases still to come are no longer held
+  if s.q > st.avail + st.poolQ - outK d.r future cl then .error ⟨.exceedsHolding, t, d.ord, 1, 1, s.idx⟩
   else
     -- 1. Same Day
     let sd := sameDayPart d st.avail s
